@@ -180,6 +180,27 @@ func (p *Pool) explore(harness string, params map[string]int, opt ExploreOpts) *
 	busy := 0
 	done := false
 	violSeen := map[string]bool{}
+	forkSites := map[string]int{}
+	defer func() {
+		if len(forkSites) == 0 {
+			return
+		}
+		type kv struct {
+			k string
+			v int
+		}
+		var l []kv
+		for k, v := range forkSites {
+			l = append(l, kv{k, v})
+		}
+		sort.Slice(l, func(i, j int) bool { return l[i].v > l[j].v })
+		for i, e := range l {
+			if i >= 25 {
+				break
+			}
+			fmt.Fprintf(os.Stderr, "forksite %8d %s\n", e.v, e.k)
+		}
+	}()
 	var wg sync.WaitGroup
 	for _, w := range p.workers {
 		wg.Add(1)
@@ -224,6 +245,9 @@ func (p *Pool) explore(harness string, params map[string]int, opt ExploreOpts) *
 				}
 				r := resp.Res
 				stack = append(stack, r.NewItems...)
+				for k, v := range r.ForkSites {
+					forkSites[k] += v
+				}
 				sum.Decisions += int64(len(r.Trail))
 				sum.StatusCount[r.Status]++
 				switch r.Status {
